@@ -216,6 +216,34 @@ def legal (s : CS) : Label → Bool
   | .delete => false
   | _ => true
 
+/-! ### deletion of the Rollout (C09: no reachable state crashes — also while the Rollout is being torn down) -/
+
+/-- a Rollout under deletion that still carries the controller's finalizer -/
+def delOK (ro : Rollout) : Bool :=
+  ro.deleting && ro.hasFinalizer && !ro.disabled && !ro.paused && ro.style == .canary && ro.realPartition && !ro.steps.isEmpty
+
+/-- the invariant after the user deleted the Rollout (labels ro / br / env / approve / tick / crash / delete): the
+    workload and BatchRelease facts of `fwdInv`; while the status still says Progressing (the one reconcile that notices
+    the deletion) the phase-dependent part of `fwdInv`; once Terminating, a Terminating condition exists -/
+def delInv (s : CS) : Bool :=
+  (match s.wl with
+   | none => false
+   | some w =>
+     wlOK w && planMono w.replicas (planOf s.ro) && brOKo s.br &&
+     (s.gone ||
+      (delOK s.ro &&
+       (match s.ro.phase with
+        | .healthy => true
+        | .progressing => phaseInv s w
+        | .terminating => s.ro.term != .none
+        | _ => false))))
+
+/-- the labels of the deletion theorems: everything legal before, plus `delete` at any time; once the Rollout is being
+    deleted (or gone) no new release -/
+def legalD (s : CS) : Label → Bool
+  | .release rev => !s.gone && !s.ro.deleting && idle s rev
+  | _ => true
+
 /-- the CloneSet knobs the rollout world does not carry -/
 def wlx (w : CWl) : RV.Oracle.Cluster.WlX :=
   { partition := w.partition, paused := w.paused, controlled := w.owner != .none, updated := w.updated }
@@ -227,8 +255,8 @@ def exposureOK (s : CS) : Bool :=
 /-- **C09** — no reconciler panics from this state -/
 def totalOK (s : CS) : Bool := (step s .ro).isSome && (step s .br).isSome
 
-def stateOracles (s : CS) (fwd : Bool) : List (String × Bool) :=
-  let inv := !fwd || fwdInv s
+def stateOracles (s : CS) (fwd : Bool) (del : Bool := false) : List (String × Bool) :=
+  let inv := (!fwd || fwdInv s) && (!del || delInv s)
   [("C01.loop_inv", inv), ("C02.loop_inv", inv), ("C06.loop_inv", inv), ("C07.loop_inv", inv), ("C09.loop_inv", inv),
    ("C09.loop_total", totalOK s), ("C06.loop_total", totalOK s),
    ("C01.loop_exposure", exposureOK s), ("C06.loop_exposure", exposureOK s)]
